@@ -1,17 +1,67 @@
-"""Whole-transfer theorem for the real BlockDownloadStream against a conformant block server without loss
-(env/blockserver.py BlockDownloadServer), by an inductive loop invariant: for every payload of declared size
-(1 .. 2**32-1 bytes), every sequence of block sizes the server chooses (1..127, a new one with every acknowledgement),
-CRC negotiated or not: every client frame is legal in its step (sequence numbers 1..blksize, last-segment flag, count
-of unused bytes, CRC the server accepts) and the server commits exactly the payload."""
+"""Whole-transfer theorems for the real BlockDownloadStream against a conformant block server (env/blockserver.py
+BlockDownloadServer), by inductive loop invariants.
+
+BlockDownloadTheorem (no loss): for every payload of declared size (1 .. 2**32-1 bytes), every sequence of block sizes
+the server chooses (1..127, a new one with every acknowledgement), CRC negotiated or not: every client frame is legal
+in its step (sequence numbers 1..blksize, last-segment flag, count of unused bytes, CRC the server accepts) and the
+server commits exactly the payload.
+
+BlockDownloadLossTheorem (one segment lost, anywhere in a sub-block that does not contain the last segment): the same
+conclusion.  Two nested invariants: the file-layer loop (`block_download_in_chunks`) whose state now includes a gap
+(the server holds fewer segments than the client has sent in the running sub-block) and `_current_block` described as
+the consecutive segments of the payload sent in this sub-block; and the retransmission loop of the real `_retransmit`
+(`for b in block: self.write(b)`), cut at its ghost iteration index."""
 from pyvc.engine import Contract, contract
 from pyvc.worlds import Call
 from pyvc import spec as S
 from pyvc.values import And, Or, Not, Implies, Iff, compare, ite, binop, SObj, SBytes, LBytes, truth_val, mk_bool
-from pyvc.interp import LoopSpec, SList, PBase
+from pyvc.interp import LoopSpec, SList, PBase, SegBase
 from pyvc.models import crc_prefix, crc_prefix_step, crc_prefix_zero
 from contracts.l01_transfers import _same_prefix, _prefix_or_empty
 
 BD = "canopen.sdo.client:BlockDownloadStream"
+
+
+def seglist_is(lst, data, start, count):
+    """lst is the list of the `count` consecutive 7-byte segments of data that begin at data[start]"""
+    if not isinstance(lst, SList):
+        return False
+    c = []
+    n0 = 0
+    if lst.base is not None:
+        b = lst.base
+        if not (isinstance(b, SegBase) and b.width == 7 and b.arr.eq(data.arr)):
+            return False
+        n0 = b.length
+        c.append(Or(compare("==", n0, 0), compare("==", b.start, binop("+", data.off, start))))
+    c.append(compare("==", count, binop("+", n0, len(lst.items))))
+    for j, it in enumerate(lst.items):
+        if not S.is_byteslike(it):
+            return False
+        c.append(compare("==", S.blen(it), 7))
+        at = binop("+", start, binop("*", binop("+", n0, j), 7))
+        for i in range(7):
+            c.append(compare("==", S.bat(it, i), S.bat(data, binop("+", at, i))))
+    return And(c)
+
+
+def segs(name, data, start, count):
+    return SList([], SegBase(name, count, data.arr, binop("+", data.off, start)))
+
+
+def _open_state(w, f, s, data, pos):
+    """segments remain: both sides agree on the running sub-block; the server has every byte sent so far except, after
+    a loss, the segments of this sub-block that followed the gap; _current_block holds this sub-block's segments"""
+    c, B, r = f["_seqno"], f["_blksize"], s["seq"]
+    gap = compare("<", r, c)
+    block_start = binop("-", pos, binop("*", c, 7))
+    return And(S.eq(s["phase"], 1), Not(s["finished"]), S.eq(c, s["sent"]), S.eq(B, s["blksize"]),
+               compare(">=", r, 0), compare("<=", r, c), compare("<", c, B), compare("<=", B, 127),
+               compare(">=", s["losses_left"], 0), compare("<=", s["losses_left"], w.pre["losses"]),
+               compare(">=", block_start, 0), seglist_is(f["_current_block"], data, block_start, c),
+               _prefix_or_empty(s["buf"], data, binop("-", pos, binop("*", binop("-", c, r), 7))),
+               Implies(gap, And(S.eq(s["losses_left"], 0),
+                                compare("<", binop("+", block_start, binop("*", B, 7)), data.n))))
 
 
 def _inv(interp, fr):
@@ -21,39 +71,31 @@ def _inv(interp, fr):
     pos = fr.locals["pos"]
     crc_on = truth_val(f["crc_supported"])
     fin = compare(">=", pos, data.n)
-    c = {"range": And(compare(">=", pos, 0), compare("<=", pos, data.n), S.eq(fr.locals["total"], data.n)),
-         "client-pos": S.eq(f["pos"], pos),
-         "size-declared": And(S.eq(f["size"], data.n), S.eq(s["declared"], data.n)),
-         "crc-flag": Iff(crc_on, s["server_crc"]),
-         "crc-so-far": Implies(crc_on, S.eq(f["_crc"].fields["_value"], crc_prefix(data, pos))),
-         "not-retransmitting": Not(f["_retransmitting"]),
-         "done-iff-all-sent": Iff(f["_done"], fin),
-         # while segments remain: the server has exactly the bytes sent so far and both sides agree on the position
-         # inside the running sub-block and on its size
-         "open": Implies(Not(fin), And(_prefix_or_empty(s["buf"], data, pos), S.eq(s["phase"], 1), S.eq(f["_seqno"], s["seq"]),
-                                       S.eq(f["_blksize"], s["blksize"]), compare(">=", s["seq"], 0),
-                                       compare("<", s["seq"], s["blksize"]), compare("<=", s["blksize"], 127), Not(s["finished"]))),
-         # after the last segment (its acknowledgement already consumed): the server holds all but the last segment,
-         # keeps the last segment's seven bytes pending, and waits for the end frame
-         "closed": Implies(fin, w.pre["final_state"](interp, fr))}
-    return c
+    return {"range": And(compare(">=", pos, 0), compare("<=", pos, data.n), S.eq(fr.locals["total"], data.n)),
+            "client-pos": S.eq(f["pos"], pos),
+            "size-declared": And(S.eq(f["size"], data.n), S.eq(s["declared"], data.n)),
+            "crc-flag": Iff(crc_on, s["server_crc"]),
+            "crc-so-far": Implies(crc_on, S.eq(f["_crc"].fields["_value"], crc_prefix(data, pos))),
+            # the flag only matters for the CRC (send skips the CRC of retransmitted segments)
+            "not-retransmitting": Implies(crc_on, Not(f["_retransmitting"])),
+            "done-iff-all-sent": Iff(f["_done"], fin),
+            "open": Implies(Not(fin), _open_state(w, f, s, data, pos)),
+            # after the last segment (its acknowledgement already consumed): the server holds all but the last segment,
+            # keeps the last segment's seven bytes pending, and waits for the end frame
+            "closed": Implies(fin, _final_state(w, f, s, data))}
 
 
-def _final_state(w):
-    def fs(interp, fr):
-        bd, srv, data = w.pre["bd"], w.pre["srv"], w.pre["data"]
-        f, s = bd.fields, srv.fields
-        L = f["_last_bytes_sent"]
-        pl = s.get("pending_last")
-        if not isinstance(pl, SBytes) or len(pl.items) != 7:
-            return False
-        base = binop("-", data.n, L)
-        c = [compare(">=", L, 1), compare("<=", L, 7), compare("<=", L, data.n), S.eq(s["phase"], 3), truth_val(s["finished"]),
-             _prefix_or_empty(s["buf"], data, base)]
-        for i in range(7):
-            c.append(ite(compare("<", i, L), S.eq(S.byte(pl, i), S.bat(data, binop("+", base, i))), S.eq(S.byte(pl, i), 0)))
-        return And(c)
-    return fs
+def _final_state(w, f, s, data):
+    L = f["_last_bytes_sent"]
+    pl = s.get("pending_last")
+    if not isinstance(pl, SBytes) or len(pl.items) != 7:
+        return False
+    base = binop("-", data.n, L)
+    c = [compare(">=", L, 1), compare("<=", L, 7), compare("<=", L, data.n), S.eq(s["phase"], 3), truth_val(s["finished"]),
+         _prefix_or_empty(s["buf"], data, base)]
+    for i in range(7):
+        c.append(ite(compare("<", i, L), S.eq(S.byte(pl, i), S.bat(data, binop("+", base, i))), S.eq(S.byte(pl, i), 0)))
+    return And(c)
 
 
 def _havoc(interp, fr):
@@ -65,54 +107,106 @@ def _havoc(interp, fr):
     fr.locals["pos"] = pos
     f["pos"] = pos
     f["_crc"].fields["_value"] = crc_prefix(data, pos) if bool(truth_val(f["crc_supported"])) else 0
-    f["_current_block"] = SList([], PBase("h_block", ctx.fresh_int("h_block.len", 0, 127)))
+    s["losses_left"] = ctx.fresh_int("h_losses_left", 0, w.pre["losses"]) if w.pre["losses"] else 0
     if bool(ctx.fresh_bool("h_finished")):
         ctx.assume(compare(">=", pos, data.n))
         L = ctx.choose(ctx.fresh_int("h_last_len", 1, 7), range(1, 8))
         ctx.assume(compare("<=", L, data.n))
         f["_done"] = True
         f["_last_bytes_sent"] = L
+        f["_current_block"] = SList([])
         s["phase"] = 3
         s["finished"] = True
         base = binop("-", data.n, L)
         s["buf"] = LBytes(data.arr, data.off, base, True)
-        from pyvc.values import int_to_byte
         s["pending_last"] = SBytes([data.at(binop("+", base, i)) if i < L else 0 for i in range(7)], False)
         f["_seqno"] = 0
         f["_blksize"] = ctx.fresh_int("h_blk_final", 1, 127)
+        s["seq"] = 0
+        s["sent"] = 0
     else:
         ctx.assume(compare("<", pos, data.n))
         blk = ctx.fresh_int("h_blksize", 1, 127)
-        seq = ctx.fresh_int("h_seq", 0, 126)
-        ctx.assume(compare("<", seq, blk))
+        c = ctx.fresh_int("h_seq", 0, 126)
+        ctx.assume(compare("<", c, blk))
+        r = ctx.fresh_int("h_received", 0, 126) if w.pre["losses"] else c
+        ctx.assume(compare("<=", r, c))
+        ctx.assume(compare(">=", binop("-", pos, binop("*", c, 7)), 0))
         f["_done"] = False
-        f["_seqno"] = seq
+        f["_seqno"] = c
         f["_blksize"] = blk
-        s["seq"] = seq
+        f["_current_block"] = segs("h_block", data, binop("-", pos, binop("*", c, 7)), c)
+        s["seq"] = r
+        s["sent"] = c
         s["blksize"] = blk
         s["phase"] = 1
         s["finished"] = False
-        s["buf"] = LBytes(data.arr, data.off, pos, True)
+        s["buf"] = LBytes(data.arr, data.off, binop("-", pos, binop("*", binop("-", c, r), 7)), True)
     for m in range(1, 8):
         ctx.assume(crc_prefix_step(data, pos, m))
     del ctx.events[:]
     ctx.emit("havoc-trace")
 
 
-@contract
-class BlockDownloadTheorem(Contract):
+# ---- the retransmission loop of the real _retransmit: `for b in block: self.write(b)` ----------------------------------
+def _r_inv(interp, fr):
+    w = interp.l12
+    bd, srv, data = w.pre["bd"], w.pre["srv"], w.pre["data"]
+    f, s = bd.fields, srv.fields
+    it, j = fr.locals["$iter"], fr.locals["$i"]
+    m = binop("+", it.base.length, len(it.items)) if it.base is not None else len(it.items)
+    pos = f["pos"]
+    p0 = binop("-", pos, binop("*", j, 7))
+    p_end = binop("+", p0, binop("*", m, 7))
+    c, B = f["_seqno"], f["_blksize"]
+    crc_on = truth_val(f["crc_supported"])
+    return {"index": And(compare(">=", j, 0), compare("<=", j, m)),
+            "block-is-the-unacknowledged-segments": And(compare(">=", p0, 0), seglist_is(it, data, p0, m)),
+            "sub-block-without-the-last-segment": compare("<", p_end, data.n),
+            "retransmitting": Implies(crc_on, truth_val(f["_retransmitting"])),
+            "not-done": And(Not(f["_done"]), S.eq(f["size"], data.n), S.eq(s["declared"], data.n)),
+            "crc-covers-the-block-once": Implies(crc_on, S.eq(f["_crc"].fields["_value"], crc_prefix(data, p_end))),
+            "in-step": And(S.eq(c, s["sent"]), S.eq(c, s["seq"]), S.eq(B, s["blksize"]), compare(">=", c, 0), compare("<", c, B),
+                           compare("<=", B, 127), S.eq(s["phase"], 1), Not(s["finished"]), S.eq(s["losses_left"], 0)),
+            "current-block": And(compare(">=", binop("-", pos, binop("*", c, 7)), 0),
+                                 seglist_is(f["_current_block"], data, binop("-", pos, binop("*", c, 7)), c)),
+            "server-has-prefix": _prefix_or_empty(s["buf"], data, pos)}
+
+
+def _r_havoc(interp, fr):
+    w = interp.l12
+    bd, srv, data = w.pre["bd"], w.pre["srv"], w.pre["data"]
+    ctx = interp.ctx
+    f, s = bd.fields, srv.fields
+    it = fr.locals["$iter"]
+    m = binop("+", it.base.length, len(it.items)) if it.base is not None else len(it.items)
+    p0 = f["pos"]
+    j = ctx.fresh_int("r_j", 0, 127)
+    fr.locals["$i"] = j
+    # the list is not changed by the loop: only its description is normalised (justified by the loop-init obligation
+    # block-is-the-unacknowledged-segments)
+    fr.locals["$iter"] = segs("r_block", data, p0, m)
+    pos = binop("+", p0, binop("*", j, 7))
+    f["pos"] = pos
+    B = ctx.fresh_int("r_blksize", 1, 127)
+    c = ctx.fresh_int("r_seq", 0, 126)
+    ctx.assume(compare("<", c, B))
+    ctx.assume(compare(">=", binop("-", pos, binop("*", c, 7)), 0))
+    f["_seqno"] = c
+    f["_blksize"] = B
+    f["_current_block"] = segs("r_current", data, binop("-", pos, binop("*", c, 7)), c)
+    s["seq"] = c
+    s["sent"] = c
+    s["blksize"] = B
+    s["buf"] = LBytes(data.arr, data.off, pos, True)
+
+
+class _Base(Contract):
     target = "canopen.sdo.client:BlockDownloadStream.write"
-    id = "BlockDownloadTheorem"
-    functions = ("canopen.sdo.client:BlockDownloadStream.__init__", "canopen.sdo.client:BlockDownloadStream.send",
-                 "canopen.sdo.client:BlockDownloadStream._block_ack", "canopen.sdo.client:BlockDownloadStream.close",
-                 "canopen.sdo.base:CrcXmodem.process", "canopen.sdo.base:CrcXmodem.final")
     props = ("C12",)
-    cases = {"crc/crc": (True, True), "crc-requested/server-without": (True, False), "no-crc-requested/server-with": (False, True)}
-    loop_specs = {("block_download_in_chunks", 0): LoopSpec(_inv, _havoc,
-                                                            lambda interp, fr: binop("-", fr.locals["total"], fr.locals["pos"]))}
     xcheck_n = 4
     max_paths = 6000
-    __doc__ = __doc__
+    losses = 0
 
     def setup(self, w, case):
         req_crc, srv_crc = case
@@ -120,15 +214,14 @@ class BlockDownloadTheorem(Contract):
         data = w.lbytes("data", 1, (1 << 32) - 1)
         srv = w.obj("env.blockserver:BlockDownloadServer", index=index, subindex=sub, buf=w.empty_prefix_of(data), server_crc=srv_crc,
                     use_crc=False, declared=None, seq=0, blksize=0, phase=0, last_len=0, finished=False, committed=None,
-                    rx_cobid=0x601, pending_last=None)
+                    rx_cobid=0x601, pending_last=None, sent=0, losses_left=self.losses)
         if not w.native:
             w.interp.l12 = w
             if isinstance(data, LBytes):
                 w.assume(crc_prefix_zero(data))
         size = data.n if isinstance(data, LBytes) else len(data)
         bd = w.run(Call(("new", BD), [srv, index, sub, size, req_crc]))
-        w.pre.update(bd=bd, srv=srv, data=data)
-        w.pre["final_state"] = _final_state(w)
+        w.pre.update(bd=bd, srv=srv, data=data, losses=self.losses)
         return Call(("func", "env.drivers", "block_download_in_chunks"), [bd, data])
 
     def observe(self, w):
@@ -144,4 +237,30 @@ class BlockDownloadTheorem(Contract):
             return _prefix_or_empty(com, p["data"], p["data"].n)
         return S.is_byteslike(com) and S.same_bytes(com, p["data"])
 
-    ensures = {"frames-legal_server-commits-exactly-the-payload": lambda s: BlockDownloadTheorem.ok(s)}
+
+_OUTER = LoopSpec(_inv, _havoc, lambda interp, fr: binop("-", fr.locals["total"], fr.locals["pos"]))
+
+
+@contract
+class BlockDownloadTheorem(_Base):
+    id = "BlockDownloadTheorem"
+    functions = ("canopen.sdo.client:BlockDownloadStream.__init__", "canopen.sdo.client:BlockDownloadStream.send",
+                 "canopen.sdo.client:BlockDownloadStream._block_ack", "canopen.sdo.client:BlockDownloadStream.close",
+                 "canopen.sdo.base:CrcXmodem.process", "canopen.sdo.base:CrcXmodem.final")
+    cases = {"crc/crc": (True, True), "crc-requested/server-without": (True, False), "no-crc-requested/server-with": (False, True)}
+    loop_specs = {("block_download_in_chunks", 0): _OUTER}
+    losses = 0
+    __doc__ = __doc__
+    ensures = {"frames-legal_server-commits-exactly-the-payload": lambda s: _Base.ok(s)}
+
+
+@contract
+class BlockDownloadLossTheorem(_Base):
+    id = "BlockDownloadLossTheorem"
+    functions = BlockDownloadTheorem.functions + ("canopen.sdo.client:BlockDownloadStream._retransmit",)
+    cases = {"crc/crc": (True, True), "no-crc": (False, False)}
+    loop_specs = {("block_download_in_chunks", 0): _OUTER,
+                  ("BlockDownloadStream._retransmit", 0): LoopSpec(_r_inv, _r_havoc, None)}
+    losses = 1
+    __doc__ = __doc__
+    ensures = {"single-loss-repaired_server-commits-exactly-the-payload": lambda s: _Base.ok(s)}
